@@ -374,12 +374,11 @@ func c12r5(c *Ctx, id string) {
 	n := 0
 	for _, name := range sortedKeys(oi.handlers) {
 		h := oi.handlers[name]
-		for _, a := range allocsOf(h, off) {
+		for _, l := range w.litsIn(h, off) {
 			n++
 			c.see(h)
-			tab, _ := allocTable(a)
-			got := w.Origin(tab["LatestSeqNo"])
-			c.Check(got == "recv.latestSeqNo", id, "end-bound@"+fname(h), a.Pos(), "LatestSeqNo ← "+got, "LatestSeqNo ← "+got+": the position writer would store this over the end bound sampled at open, and a reopen would request the wrong end")
+			got := l.Table["LatestSeqNo"]
+			c.Check(got == "recv.latestSeqNo", id, "end-bound@"+fname(h), l.Pos, "LatestSeqNo ← "+got, "LatestSeqNo ← "+got+": the position writer would store this over the end bound sampled at open, and a reopen would request the wrong end")
 		}
 	}
 	if n < 10 {
